@@ -27,7 +27,9 @@
     * COMPLETENESS WHEN THE GENERATOR STOPS (item 6, partial correctness), acyclic context-free
       grammars, heap search with threshold 0 and no filter: C02_HS_complete, C02_HS_exactly_once
       (output duplicate-free and equal to the language), C02_HS_exhausted_complete;
-  NOT proved: termination (that the generator stops), completeness for bucket search / thresholds,
+    * TERMINATION of the generator loop given that the prologue returns: C02_HS_stops_partial,
+      C02_HS_total_partial;
+  NOT proved: termination of the prologue, completeness for bucket search / thresholds,
   no-duplicates with a filter, and everything about the unambiguous-grammar machine (UHeapSearch); they are checked on
   every generated case against the independent language oracle and by exact correspondence of the
   model with the implementation.
@@ -40,6 +42,7 @@ import PS.Proofs.Enum.HSSoundInit
 import PS.Proofs.Enum.HSPrio
 import PS.Proofs.Enum.HSNodupRun
 import PS.Proofs.Enum.HSCompleteCheck
+import PS.Proofs.Enum.HSStops
 namespace PS.C02HS
 open PS PS.G
 
@@ -249,7 +252,7 @@ variable {S : Type} [DecidableEq S]
     successor program pushed or an exhausted argument (`HS.big_i3`), exhausted heaps stay exhausted
     (`HS.big_emptyStable`), the table structure (`HS.TInv`), then induction on the rank and on the
     distance of the argument tuple from the first pops (`HS.exhausted_complete`).
-    NOT proved: that the generator does stop (termination); on recursive grammars the statement is
+    That the generator does stop: `C02_HS_stops_partial`; on recursive grammars the statement is
     false (`finding_C02_HS_recursive`). -/
 theorem C02_HS_complete (E : Env S Unit Rat) (rank : NT S Unit → Nat) (C : CompHyp E rank) (fuel k : Nat)
     (g' : Gen S Unit Rat) (out : List Prog) (h : take E fuel k (Gen.new E.G) [] = some (g', out, true)) :
@@ -274,11 +277,37 @@ theorem C02_HS_exhausted_complete (E : Env S Unit Rat) (rank : NT S Unit → Nat
     ∃ k, AList.lookup k (s.succOf nt) = some p :=
   exhausted_complete H hcl Q _ nt rfl hempty p hg
 
+/-- **TERMINATION of the generator loop, partial**: if the prologue of `generator()` (max-priority
+    tables, initial heaps, first queries) returns for the given fuel, and the fuel is at least
+    `(rank start + 1) * (max arity + 5)`, the generator raises `StopIteration` after finitely many `next`:
+    every `next` returns (`HS.query_total`: the nesting of `query` / `__add_successors__` is bounded by the
+    rank) and the yielded programs are distinct members of a finite language.
+    FULL statement = the same without `hpro`; what is missing is that the prologue itself returns
+    with enough fuel (termination of `__init_non_terminal__` / `_reevaluate_` / `__init_heap__`). -/
+theorem C02_HS_stops_partial (E : Env S Unit Rat) (rank : NT S Unit → Nat) (C : CompHyp E rank) (fuel : Nat)
+    (hfuel : (rank E.G.start + 1) * (maxArity E.G + 5) ≤ fuel)
+    (hpro : prologue E fuel (St.empty E.G) ≠ none) :
+    ∃ k g' out, take E fuel k (Gen.new E.G) [] = some (g', out, true) :=
+  take_stops E rank C fuel hfuel hpro
+
+/-- together: the generator stops and its output is the language, each program once -/
+theorem C02_HS_total_partial (E : Env S Unit Rat) (rank : NT S Unit → Nat) (C : CompHyp E rank) (fuel : Nat)
+    (hfuel : (rank E.G.start + 1) * (maxArity E.G + 5) ≤ fuel)
+    (hpro : prologue E fuel (St.empty E.G) ≠ none) :
+    ∃ k g' out, take E fuel k (Gen.new E.G) [] = some (g', out, true) ∧
+      out.Nodup ∧ ∀ p, p ∈ out ↔ contains E.G p = true := by
+  obtain ⟨k, g', out, h⟩ := take_stops E rank C fuel hfuel hpro
+  exact ⟨k, g', out, h, C02_HS_exactly_once E rank C fuel k g' out h⟩
+
 def cRank (nt : NT Nat Unit) : Nat := 1 - nt.2.1
 
 theorem cE_hyp : CompHyp cE cRank :=
   compHyp_of_checks cE cRank rfl (by decide +kernel) (by decide) (by decide) (by decide) (by decide)
     (by decide +kernel) (by decide) (fun _ => rfl)
+
+example : ∃ k g' out, take cE 50 k (Gen.new cG) [] = some (g', out, true) ∧
+    out.Nodup ∧ ∀ p, p ∈ out ↔ contains cG p = true :=
+  C02_HS_total_partial cE cRank cE_hyp 50 (by decide) (by decide +kernel)
 
 /-- on the example grammar the generator stops after its 5 programs, which are exactly the language -/
 example : ∀ g' out, take cE 50 10 (Gen.new cG) [] = some (g', out, true) →
